@@ -109,7 +109,17 @@ class LoopTimeout(nfa.Spec):
 def run(ctx):
     ctx.explanation = EXPL
     ctx.assumptions = ["futures_timer::Delay::new(t) does not fire before t", "select! drops the losing future when the wrapper's frame is dropped (it owns both)"]
-    fx = ctx.facts("tokio")
+    cfgs = ["tokio"] if ctx.tier == "quick" else ["tokio", "smol", "asyncstd"]
+    for cfg in cfgs:
+        fx = ctx.facts(cfg) if cfg == "tokio" else ctx.try_facts(cfg)
+        if fx is None:
+            continue
+        ctx.cfg_tag = cfg
+        run_cfg(ctx, fx)
+    return core.finish(ctx)
+
+
+def run_cfg(ctx, fx):
     # R11.1 setters
     setters = {
         "actor::builder::BaseActorBuilder::<A, P>::timeout": "Some",
@@ -160,7 +170,7 @@ def run(ctx):
     # the plain loop
     plain = [(f, k) for f, k in loops.find_loops(fx) if k == "plain"]
     if not ctx.require(len(plain) == 1, "R11.1", "plain-loop", "plain loop not found"):
-        return core.finish(ctx)
+        return None
     lf = plain[0][0]
     lb = ctx.body(fx, lf)
     parent = fx.fn(lf["parent"])
@@ -189,7 +199,7 @@ def run(ctx):
     t_idx = [i for i, p in paths.items() if p == "config.timeout"]
     f_idx = [i for i, p in paths.items() if p == "config.fail_on_timeout"]
     if not ctx.require(len(t_idx) == 1 and len(f_idx) == 1, "R11.1", "loop-captures-config", "the plain loop must capture config.timeout and config.fail_on_timeout: captures %s" % paths, fn=lf["def"], site=lf["loc"], detail=paths):
-        return core.finish(ctx)
+        return None
     wraps = [(bi, t) for bi, t in lb.normal_calls() if loops.local_wrapper(t)]
     inv = [(bi, t) for bi, t in lb.normal_calls() if loops.is_task_invoke(t)]
     ok = len(wraps) == 1 and len(inv) == 1
@@ -216,7 +226,7 @@ def run(ctx):
         wco = [c for c in fx.children_of(wdef) if c["kind"] == "coroutine"]
         if ctx.require(len(wco) == 1, "R11.2", "wrapper-body", "body of the timeout wrapper %s not found" % wdef):
             check_wrapper(ctx, fx, wco[0])
-    return core.finish(ctx)
+    return None
 
 
 def check_wrapper(ctx, fx, co):
